@@ -25,6 +25,7 @@
 #include <thread>
 #include <time.h>
 #include <pthread.h>
+#include <sched.h>
 #include <sys/syscall.h>
 #include <unistd.h>
 #include <vector>
@@ -86,6 +87,51 @@ extern "C" int clock_gettime(clockid_t id, struct timespec *ts) noexcept
     return real(id, ts);
 }
 
+// ------------------------------------------------------------------------------ the poller's sleeps
+// This translation unit also defines nanosleep(): std::this_thread::sleep_for() inside libompl (periodicEval's
+// `std::this_thread::sleep_for(s)`) is inlined there and reaches the kernel through the PLT entry `nanosleep`,
+// which the dynamic linker resolves to this definition.  For every thread other than the harness's it counts
+// the calls and remembers the requested length; a scripted leaf invoked on such a thread takes the record as
+// "the sleeps between my previous invocation on this thread and this one" (`naps`), the thread's exit hands
+// over what it slept after its last invocation (`napsexit`).  `fastnap 1`: those threads' sleeps return at
+// once (so a 100 s period can be observed in microseconds); the harness thread always really sleeps.
+struct LeafScript;
+struct NapLog
+{
+    long n = 0;
+    long long ns = -1;
+    bool mixed = false;
+    LeafScript *last = nullptr;
+    void add(long long d)
+    {
+        if (n > 0 && d != ns)
+            mixed = true;
+        ns = d;
+        ++n;
+    }
+    void reset() { n = 0; ns = -1; mixed = false; }
+    ~NapLog();
+};
+static thread_local NapLog napLog;
+static std::atomic<bool> fastNap{false};
+
+extern "C" int nanosleep(const struct timespec *req, struct timespec *rem)
+{
+    using fn_t = int (*)(const struct timespec *, struct timespec *);
+    static fn_t real = (fn_t)dlsym(RTLD_NEXT, "nanosleep");
+    if (harnessThreadSet && !pthread_equal(pthread_self(), harnessThread) && req != nullptr)
+    {
+        napLog.add((long long)req->tv_sec * 1000000000LL + req->tv_nsec);
+        if (fastNap.load())
+        {
+            if ((napLog.n & 1023) == 0)
+                sched_yield();
+            return 0;
+        }
+    }
+    return real(req, rem);
+}
+
 // ------------------------------------------------------------------------------ scripted leaves
 struct LeafScript
 {
@@ -103,12 +149,23 @@ struct LeafScript
     bool gateVerdict = false;
     bool inside = false, open = false, returned = false;
     long gateTid = 0;   // kernel thread id of the thread that entered the gate
+    // sleeps of the invoking (poller) thread between its previous invocation and the latest one / after its last one
+    long gapN = 0, exitN = 0;
+    long long gapNs = -1, exitNs = -1;
+    bool gapMixed = false, exitMixed = false, exited = false;
     bool invoke()
     {
         std::unique_lock<std::mutex> g(m);
         size_t k = calls++;
         if (!pthread_equal(pthread_self(), harnessThread))
+        {
             ++foreignCalls;
+            gapN = napLog.n;
+            gapNs = napLog.ns;
+            gapMixed = napLog.mixed;
+            napLog.reset();
+            napLog.last = this;
+        }
         if (gateAt >= 0 && k == (size_t)gateAt)
         {
             inside = true;
@@ -125,6 +182,21 @@ struct LeafScript
         return tail;
     }
 };
+NapLog::~NapLog()
+{
+    if (last != nullptr)
+    {
+        std::lock_guard<std::mutex> g(last->m);
+        last->exitN = n;
+        last->exitNs = ns;
+        last->exitMixed = mixed;
+        last->exited = true;
+    }
+}
+static std::string napLine(long n, long long ns, bool mixed)
+{
+    return "n=" + std::to_string(n) + " ns=" + (n == 0 ? std::string("-") : mixed ? std::string("mixed") : std::to_string(ns));
+}
 static std::map<size_t, std::shared_ptr<LeafScript>> leaves;
 static std::shared_ptr<LeafScript> leafOf(size_t id)
 {
@@ -626,7 +698,33 @@ int main()
             l->gateAt = (long long)(l->calls.load() + *vp::parseNat(t[2]) - 1);
             l->gateVerdict = *parseBit(t[3]);
             l->inside = l->open = l->returned = false;
+            l->exited = false;
             std::cout << "ok\n";
+        }
+        else if (op == "fastnap" && t.size() == 2 && parseBit(t[1]))
+        {
+            fastNap = *parseBit(t[1]);
+            std::cout << "ok\n";
+        }
+        else if (op == "naps" && t.size() == 2 && vp::parseNat(t[1]))
+        {
+            // the sleeps the poller made between its previous invocation of this leaf and the one it is held in
+            auto l = leafOf(*vp::parseNat(t[1]));
+            std::lock_guard<std::mutex> g(l->m);
+            if (l->inside && !l->open)
+                std::cout << napLine(l->gapN, l->gapNs, l->gapMixed) << "\n";
+            else
+                std::cout << "n=? ns=?\n";
+        }
+        else if (op == "napsexit" && t.size() == 2 && vp::parseNat(t[1]))
+        {
+            // the sleeps the poller made after its last invocation of this leaf, until its thread ended
+            auto l = leafOf(*vp::parseNat(t[1]));
+            std::lock_guard<std::mutex> g(l->m);
+            if (l->exited)
+                std::cout << napLine(l->exitN, l->exitNs, l->exitMixed) << "\n";
+            else
+                std::cout << "n=? ns=?\n";
         }
         else if (op == "await" && t.size() == 2 && vp::parseNat(t[1]))
         {
